@@ -195,10 +195,16 @@ func ownParseDir(c *caseD, dir string) error {
 // ---- oracle (a): the shipped reader against the description -----------------
 
 type parseChecker struct {
-	rec  vlib.Recorder
-	c    *caseD
-	seen map[string]bool
-	bad  bool
+	rec   vlib.Recorder
+	c     *caseD
+	seen  map[string]bool
+	bad   bool
+	found []foundV // violations, emitted by checkParse once the serialisation form has been blamed
+}
+
+type foundV struct {
+	key, what string
+	witness   map[string]any
 }
 
 func (p *parseChecker) viol(key, what string, extra map[string]any) {
@@ -211,15 +217,15 @@ func (p *parseChecker) viol(key, what string, extra map[string]any) {
 	for k, v := range extra {
 		w[k] = v
 	}
-	p.rec.Violation(key, what, w)
+	p.found = append(p.found, foundV{key, what, w})
 }
 
 func (p *parseChecker) eq(field string, got, want any, where string, line string) {
 	if fmt.Sprint(got) == fmt.Sprint(want) {
 		return
 	}
-	p.viol("C20|parse|field-"+field, fmt.Sprintf("%s: reader returned %s = %v, the serialised trace says %v", where, field, got, want),
-		map[string]any{"where": where, "line": line, "got": fmt.Sprint(got), "want": fmt.Sprint(want)})
+	p.viol("C20|parse|field-"+field, fmt.Sprintf("%s: reader returned %s = %s, the serialised trace says %s", where, field, clip(fmt.Sprint(got)), clip(fmt.Sprint(want))),
+		map[string]any{"where": where, "line": clip(line), "got": clip(fmt.Sprint(got)), "want": clip(fmt.Sprint(want))})
 }
 
 func regNames(rs []*nvidiaconfig.Register) []string {
@@ -352,11 +358,39 @@ func usesUnknownRegister(c *caseD) bool {
 	return false
 }
 
-// checkParse runs tracereader on dir and compares every exported field with
-// the description. It returns false when the simulation part cannot be judged
-// (reader crashed).
-func checkParse(rec vlib.Recorder, c *caseD, dir string) (ok bool) {
-	p := &parseChecker{rec: rec, c: c, seen: map[string]bool{}}
+// checkParse is oracle (a). It returns false when the simulation part cannot
+// be judged (reader crashed, execution list differs). A violation on a trace
+// written in a non-canonical serialisation form is attributed to the
+// responsible form dimension: key C20|parse|form:<dimension>|...
+func checkParse(rec vlib.Recorder, c *caseD, dir string) bool {
+	p, ok := parseProbe(rec, c, dir)
+	if len(p.found) == 0 {
+		if ok && !c.Shipped {
+			countForm(rec, c)
+		}
+		return ok
+	}
+	tag := ""
+	if !c.Shipped && !c.Style.Form.canonical() {
+		tag = blameForm(c, func(d string) bool {
+			q, _ := parseProbe(nullRec{}, c, d)
+			return len(q.found) > 0
+		})
+	}
+	for _, v := range p.found {
+		if tag != "" {
+			v.witness["form_blamed"] = tag
+			v.what = "[serialisation form " + tag + "] " + v.what
+		}
+		rec.Violation(formKey(v.key, "C20|parse|", tag), v.what, v.witness)
+	}
+	return ok
+}
+
+// parseProbe runs tracereader on dir and compares every exported field with
+// the description; violations are collected in the returned checker.
+func parseProbe(rec vlib.Recorder, c *caseD, dir string) (p *parseChecker, ok bool) {
+	p = &parseChecker{rec: rec, c: c, seen: map[string]bool{}}
 	defer func() {
 		if r := recover(); r != nil {
 			txt := panicText(r)
@@ -373,7 +407,7 @@ func checkParse(rec vlib.Recorder, c *caseD, dir string) (ok bool) {
 	metas := reader.GetExecMetas()
 	if len(metas) != len(c.Execs) {
 		p.viol("C20|parse|exec-count", fmt.Sprintf("kernelslist.g has %d executions, reader returned %d", len(c.Execs), len(metas)), nil)
-		return false
+		return p, false
 	}
 	for i, m := range metas {
 		e := &c.Execs[i]
@@ -395,7 +429,7 @@ func checkParse(rec vlib.Recorder, c *caseD, dir string) (ok bool) {
 		rec.Count("parse_kernels_compared", 1)
 		h := t.FileHeader
 		where = k.File + " header"
-		p.eq("KernelName", h.KernelName, k.Name, where, "")
+		p.eq("KernelName", h.KernelName, k.nameWritten(), where, "")
 		p.eq("KernelID", h.KernelID, k.KernelID, where, "")
 		p.eq("GridDim", h.GridDim, k.Grid, where, "")
 		p.eq("BlockDim", h.BlockDim, k.Block, where, "")
@@ -438,5 +472,5 @@ func checkParse(rec vlib.Recorder, c *caseD, dir string) (ok bool) {
 	if !p.bad {
 		rec.Count("parse_cases_fully_equal", 1)
 	}
-	return true
+	return p, true
 }
